@@ -30,30 +30,16 @@ pub fn c10_jumbf_read_header_total() {
     core::mem::forget(r);
 }
 
-/// BMFF BoxHeaderLite::read (size 0 = to end of file, size 1 = 64-bit size) at every start offset.
+/// Format sniffing (the first code that touches an untrusted stream) on every stream of 0..=16 bytes.
 #[kani::proof]
-pub fn c10_bmff_box_header_total() {
+pub fn c10_format_sniff_total() {
     let data = any_bytes24();
     let len: usize = kani::any();
-    kani::assume(len <= 24);
-    let start: u64 = kani::any();
-    kani::assume(start <= 25);
+    kani::assume(len <= 16);
     let mut cur = Cursor::new(&data[..len]);
-    cur.set_position(start);
-    let r = bmff::box_header_lite_read(&mut cur);
-    if let Ok((size, large)) = &r {
-        if !*large && (start as usize) + 8 <= len {
-            let o = start as usize;
-            let s32 = u32::from_be_bytes([data[o], data[o + 1], data[o + 2], data[o + 3]]);
-            if s32 == 0 {
-                assert!(*size == len as u64 - start, "size 0 must mean: to the end of the stream");
-            }
-        }
-    }
-    kani::cover!(matches!(r, Ok((_, true))), "64-bit size");
-    kani::cover!(matches!(r, Ok((s, false)) if s > 8 && start > 0), "size-0 box not at offset 0");
-    kani::cover!(r.is_err(), "truncated");
-    core::mem::forget(r);
+    let d = c2pa::jumbf_io::verif_hooks::container_from_stream(&mut cur);
+    kani::cover!(d == Some("mp3") && data[0] == b'I', "ID3 path with a look-ahead beyond the end of the stream");
+    kani::cover!(d.is_none(), "unidentified");
 }
 
 /// read_ftyp_box on every stream of 0..=32 bytes (declared sizes up to u64::MAX via large size).
